@@ -8,6 +8,7 @@ import z3
 from .sv import SV, EngineError, is_conc, wrap, z, zb
 
 _sid = itertools.count(1)
+LAST_SID = [0]      # the most recently allocated cell id (cells with a larger id than a statement's mark were allocated while evaluating it)
 
 
 class Content:
@@ -42,6 +43,8 @@ class State:
         self.files = {}         # path -> (start position, line_fn): symbolic text files that open(path) may read
         self.qfacts = []        # quantified facts produced by library contracts (max/min/argsort …), instantiated by contracts
         self.array_facts = []   # (function symbol name, fn(args)->z3 Bool): facts about input arrays, instantiated per application
+        self.named = set()      # array cells that were ever bound to a name / attribute / container / parameter (not mere temporaries)
+        self.stmt_mark = 0      # LAST_SID when the statement being executed started
 
     def fork(self):
         s = State.__new__(State)
@@ -60,11 +63,14 @@ class State:
         s.inverses = self.inverses
         s.files = self.files
         s.qfacts = self.qfacts
+        s.named = set(getattr(self, "named", ()))
+        s.stmt_mark = LAST_SID[0]        # nothing allocated before a fork counts as a temporary of the statement that follows
         return s
 
     # heap
     def alloc(self, content):
         sid = next(_sid)
+        LAST_SID[0] = sid
         self.heap[sid] = content
         return sid
 
